@@ -511,7 +511,7 @@ func (e *engineA) randLive() *Node {
 
 var crashPoints = []string{"append", "vote.persisted", "vote.before", "rpc.reply", "seg.sync.data", "seg.sync.headerWritten",
 	"log.rollover.committed", "log.rollover.created", "removeGTE", "compact", "install.stored", "install.logHandled",
-	"snap.renamed", "log.removeLTE.each", "createSegment.written", "seg.appended", "clearLog", "log.reset.each"}
+	"snap.renamed", "log.removeLTE.each", "createSegment.written", "createSegment.created", "seg.appended", "clearLog", "log.reset.each"}
 
 func (e *engineA) fault(act string) {
 	e.rc.emit(&ev.Rec{K: "fault", Op: act})
